@@ -73,6 +73,19 @@ PROPS = {
         'level_note': 'Trusted: rustc front end + MIR, the extractor, the origin analysis\'s wrapper table (Try::branch/from_residual etc.).',
         'technique': 'error-origin dataflow + propagation closure + emitted-opcode pairing over resolved MIR (rustc_private driver)',
     },
+    'C06': {
+        'module': 'c06',
+        'explanation': 'Pairing and sibling-agreement rules over MIR: every call that lowers a fiber\'s value stack is dominated by '
+                       'close_upvalues in the same function (or is one of two operand-only helpers); the scope-exit emitter chooses '
+                       'CloseUpvalue/Pop from the capture flag which only resolve_upvalue sets; the (is_local, index) capture descriptors '
+                       'are written and read in the same order and count.',
+        'assumptions': COMMON_ASSUME,
+        'not_decided': ['name resolution results', 'ordering of the open-upvalue list', 'sharing across fibers at run time'],
+        'level_text': 'Decides S1-S3 for every stack-lowering site and the capture emit/read siblings; what a name resolves to is not decided.',
+        'design_ref': 'DESIGN.md section 1, C06',
+        'level_note': 'Trusted: rustc front end + MIR, the extractor, rules/tables/c06_operand_only.json.',
+        'technique': 'dominator-based pairing rule + emitted-opcode/sibling agreement over resolved MIR (rustc_private driver)',
+    },
 }
 
 NOT_APPLICABLE = {
